@@ -77,9 +77,9 @@ func c01Spec(r *core.Run) sweepSpec {
 		return sweepSpec{Tokens: entryTokens, One: 2, Two: 1, StructLen: 4, FullHdr: 1}
 	}
 	if r.Thorough() {
-		return sweepSpec{Tokens: entryTokens, One: 4, Two: 2, Three: true, StructLen: 6, Mixed: true, FullHdr: 2}
+		return sweepSpec{Tokens: entryTokens, One: 4, Two: 2, Three: true, StructLen: 6, Struct2: 5, Mixed: true, FullHdr: 2}
 	}
-	return sweepSpec{Tokens: entryTokens, One: 3, Two: 2, Three: false, StructLen: 5, Mixed: true, FullHdr: 2}
+	return sweepSpec{Tokens: entryTokens, One: 3, Two: 2, Three: false, StructLen: 5, Struct2: 4, Mixed: true, FullHdr: 2}
 }
 
 // stratum D: word sets that make the optimiser factor common prefixes and suffixes into several groups,
